@@ -176,6 +176,25 @@ inline bool operator>=(const TC12 &a, const TC12 &b) { return a.v >= b.v; }
 inline auto operator<=>(const TC12 &a, const TC12 &b) { return a.v <=> b.v; }
 #endif
 
+/// Over-aligned trivially copyable element (alignment above max_align_t): inline storage must be placed by the
+/// compiler, never by run-time rounding that depends on the container's own address.
+struct alignas(32) TC32 {
+  int32_t v;
+  int32_t chk;
+  TC32() : v(0), chk(0x1234) {}
+  TC32(int x) : v(x), chk(x ^ 0x1234) {}
+  bool ok() const { return chk == (v ^ 0x1234) && (reinterpret_cast<uintptr_t>(this) % 32) == 0; }
+};
+inline bool operator==(const TC32 &a, const TC32 &b) { return a.v == b.v; }
+inline bool operator!=(const TC32 &a, const TC32 &b) { return a.v != b.v; }
+inline bool operator<(const TC32 &a, const TC32 &b) { return a.v < b.v; }
+inline bool operator>(const TC32 &a, const TC32 &b) { return a.v > b.v; }
+inline bool operator<=(const TC32 &a, const TC32 &b) { return a.v <= b.v; }
+inline bool operator>=(const TC32 &a, const TC32 &b) { return a.v >= b.v; }
+#if __cplusplus >= 202002L
+inline auto operator<=>(const TC32 &a, const TC32 &b) { return a.v <=> b.v; }
+#endif
+
 /// Declared trivially relocatable, not trivially copyable; identity is the id stored in the object.
 class TR {
  public:
@@ -370,6 +389,22 @@ struct El<TC12> {
   }
   static long ident(const TC12 &e) { return e.v; }
   static const char *name() { return "TC12"; }
+  static const char *cat() { return "TC"; }
+};
+template <>
+struct El<TC32> {
+  static const bool tracked = false;
+  static TC32 make(int v) { return TC32(v); }
+  static int val(const TC32 &e) { return e.v; }
+  static bool sane(const TC32 &e, const char **why) {
+    if (!e.ok()) {
+      *why = "TC32 element corrupted or misaligned (over-aligned element not on a 32-byte boundary)";
+      return false;
+    }
+    return true;
+  }
+  static long ident(const TC32 &e) { return e.v; }
+  static const char *name() { return "TC32"; }
   static const char *cat() { return "TC"; }
 };
 template <>
